@@ -537,6 +537,80 @@ def _network_field(ctx, field):
     return simp(a) if a is not None else None
 
 
+_SELECTING = {"select", "reject", "selectattr", "rejectattr", "slice", "batch", "first", "last", "random", "unique"}
+
+
+def _surface_selection(var, fs, tests):
+    """Which species of `network.species` reach the body of the eb_ loop, whatever way the selection is spelled: the filters `fs`
+    applied to the list (`selectattr("is_surface")`, `rejectattr(..)`, ..) and the conditions `tests` on the loop species (the
+    loop's own `if`, an `{% if %}` around the whole body), split into conjuncts.
+    -> (surface, wrong, unknown): the number of conditions that say `<species>.is_surface`, descriptions of UNDERSTOOD conditions that
+    select something else (a further condition on the loop species, the negated flag, a slice), descriptions of what is not read."""
+    from .. import jmodel as J
+    surface, wrong, unknown = 0, [], []
+    FLAG = ("const", "is_surface")
+    for name, args, kws in fs:
+        if name == "list" and not args and not kws:
+            continue
+        if name in ("selectattr", "rejectattr") and not kws and args and args[0] == FLAG:
+            # the flag alone, or tested `true` / `== true` / `false`
+            pol = name == "selectattr"
+            rest = tuple(args[1:])
+            if rest in ((), (("const", "true"),)) or (len(rest) == 2 and rest[0][0] == "const" and rest[0][1] in ("eq", "equalto", "==", "sameas") and rest[1] == ("const", True)):
+                pass
+            elif rest == (("const", "false"),) or (len(rest) == 2 and rest[0][0] == "const" and rest[0][1] in ("eq", "equalto", "==", "sameas") and rest[1] == ("const", False)):
+                pol = not pol
+            else:
+                unknown.append(f"{name}{tuple(J.show(a) for a in args)}")
+                continue
+            if pol:
+                surface += 1
+            else:
+                wrong.append(f"{name}({', '.join(J.show(a) for a in args)}) keeps the species that are NOT on the surface")
+        elif name in _SELECTING:
+            wrong.append(f"a further selection `{name}({', '.join(J.show(a) for a in args)})`")
+        else:
+            unknown.append(f"the filter `{name}`")
+
+    def conjuncts(t):
+        return conjuncts(t[1]) + conjuncts(t[2]) if t[0] == "and" else [t]
+    vars_ = J._targets(var)
+    for test in tests:
+        for c in conjuncts(test):
+            t, pol = J.canon_test(c)
+            if t[0] == "test" and t[1] in ("true", "false") and not t[3]:
+                t, pol = t[2], pol == (t[1] == "true")
+            if t[0] == "cmp" and len(t[2]) == 1 and t[2][0][0] == "eq" and t[2][0][1] in (("const", True), ("const", False)):
+                t, pol = t[1], pol == t[2][0][1][1]
+            if t == ("attr", var, "is_surface"):
+                if pol:
+                    surface += 1
+                else:
+                    wrong.append(f"`{J.show(c)}` keeps the species that are NOT on the surface")
+            elif t[0] in ("attr", "cmp", "test", "item") and J.names_of(c) and J.names_of(c) <= vars_ and not any(x[0] in ("call", "filter") for x in J._subterms(c) if isinstance(x, tuple) and x):
+                # a plain condition on an attribute of the loop species: a further selection among them
+                wrong.append(f"a further condition `{J.show(c)}`")
+            else:
+                unknown.append(f"the condition `{J.show(c)}`")
+    return surface, wrong, unknown
+
+
+def _eb_loop(it):
+    """is this `for` item the loop that emits `eb_<..>`?  -> (body holding the text `eb_`, [conditions around it inside the loop])
+    when the text stands in the loop body itself or in an `{% if %}` (without else) that is all the loop body contains; else None"""
+    body, tests = it[3], []
+    for _ in range(4):
+        if any(x[0] == "text" and x[1].rstrip().endswith("eb_") for x in body):
+            return body, tests
+        rest = [x for x in body if not (x[0] == "text" and not x[1].strip())]
+        if len(rest) == 1 and rest[0][0] == "if" and not [x for x in rest[0][3] if not (x[0] == "text" and not x[1].strip())]:
+            tests = tests + [rest[0][1]]
+            body = rest[0][2]
+        else:
+            return None
+    return None
+
+
 def _r6(ctx):
     """The templates that say `eb_<alias>` read a C constant: it must be defined, for every ice species, from the SAME species'
     binding energy, printed as Python prints the float (repr round-trips; a format filter rounds)."""
@@ -545,24 +619,31 @@ def _r6(ctx):
     for rel, need_value in ((CONST_C, True), (CONST_H, False)):
         ctx.saw(rel)
         # ({% set %} names and macro parameters read as what they stand for; a loop over `S | map(..)` already iterates S)
-        loops = [it for it, _ in J.walk_items(J.inline_sets(J.flatten(ctx.tree, rel, {}))) if it[0] == "for" and any(x[0] == "text" and x[1].rstrip().endswith("eb_") for x in it[3])]
+        loops = [it for it, _ in J.walk_items(J.inline_sets(J.flatten(ctx.tree, rel, {}))) if it[0] == "for" and _eb_loop(it) is not None]
         if len(loops) != 1:
             ctx.missing("R6", f"{rel}:eb_ loop", (rel, 0), f"expected one loop emitting eb_<alias>, found {len(loops)}")
             continue
         lp = loops[0]
-        var, it_, body = lp[1], lp[2], lp[3]
+        var, it_ = lp[1], lp[2]
+        body, inner_tests = _eb_loop(lp)
         n += 1
         k = f"{rel.rsplit('/', 1)[1]}:eb_"
         SPECS = ("attr", ("name", "network"), "species")
-        dom_ok = it_ == ("filter", "selectattr", SPECS, (("const", "is_surface"),), ()) or it_ == SPECS
         base_, fs_ = J.unfilter(it_)
         dkey = f"{k}:every ice species"
-        if dom_ok and lp[7] is None:
-            ctx.ok("R6", dkey, (rel, lp[5]), "one constant per surface species of the network")
-        elif base_ == SPECS and (lp[7] is not None or any(f[0] in ("select", "reject", "selectattr", "rejectattr", "slice", "batch") for f in fs_)):
-            # understood and wrong: the species list with a further selection
-            ctx.bad("R6", dkey, (rel, lp[5]), "one constant per surface species of the network", expected="network.species | selectattr('is_surface')", found=J.show(it_) + (f" if {J.show(lp[7])}" if lp[7] is not None else ""))
-        elif base_[0] == "attr" and base_[1] == ("name", "network") and not fs_ and lp[7] is None and _network_field(ctx, base_[2]) is not None:
+        tests_ = ([lp[7]] if lp[7] is not None else []) + inner_tests
+        spelled = J.show(it_) + "".join(f" if {J.show(t)}" for t in tests_)
+        if base_ == SPECS:
+            # the species list, selected by ROLE: the conditions `<species>.is_surface` -- as selectattr filter, as the loop's own
+            # `if`, as an `{% if %}` around the body -- and nothing else.  Understood and wrong: a further / another selection
+            surface, wrong, unknown = _surface_selection(var, fs_, tests_)
+            if wrong:
+                ctx.bad("R6", dkey, (rel, lp[5]), "one constant per surface species of the network", expected="network.species | selectattr('is_surface')", found=f"{spelled}: {wrong[0]}")
+            elif unknown:
+                ctx.unrec("R6", dkey, (rel, lp[5]), f"cannot tell which species the eb_ constants are emitted for: {spelled} ({unknown[0]} is not understood)")
+            else:
+                ctx.ok("R6", dkey, (rel, lp[5]), "one constant per surface species of the network")
+        elif base_[0] == "attr" and base_[1] == ("name", "network") and not [f for f in fs_ if f[0] != "list"] and not tests_ and _network_field(ctx, base_[2]) is not None:
             # another field of the NetworkInfo handed to the templates: what the renderer puts into it
             fv = _network_field(ctx, base_[2])
             sel = None
@@ -578,7 +659,7 @@ def _r6(ctx):
             else:
                 ctx.unrec("R6", dkey, (rel, lp[5]), f"cannot tell which species the eb_ constants are emitted for: network.{base_[2]} = {show(fv)[:100]}")
         else:
-            ctx.unrec("R6", dkey, (rel, lp[5]), f"cannot tell which species the eb_ constants are emitted for: {J.show(it_)}")
+            ctx.unrec("R6", dkey, (rel, lp[5]), f"cannot tell which species the eb_ constants are emitted for: {spelled}")
         idx = [i for i, x in enumerate(body) if x[0] == "text" and x[1].rstrip().endswith("eb_")][0]
         name = body[idx + 1] if idx + 1 < len(body) else None
         nkey = f"{k}:name"
